@@ -264,7 +264,9 @@ class Link:
                 kind = "m2r"
             else:
                 how = "fallback"
-        if how in ("honest", "fallback") and m in ("m1", "m1r"):
+        if kind == "m2r":
+            pass
+        elif how in ("honest", "fallback") and m in ("m1", "m1r"):
             self.pv = A.PairVerify(w.ident)
             reply = self.pv.on_m1(items)
             kind = "m2"
@@ -483,7 +485,7 @@ class World:
             iids = [IID_ON, IID_LABEL][:n] if n <= 2 else [IID_ON, IID_LABEL, IID_BRIGHT]
             coro = p.get_characteristics([(1, i) for i in iids])
         elif kind == "put":
-            vals = [(1, IID_LABEL, LONG_VALUE if long else "ab"), (1, IID_ON, True)][:n]
+            vals = [(1, IID_LABEL, LONG_VALUE if long else "ab"), (1, IID_ON, True), (1, IID_BRIGHT, 5)][:n]
             coro = p.put_characteristics(vals)
         elif kind == "close":
             coro = p.close()
@@ -505,6 +507,15 @@ class World:
         self.callers[c] = (t, kind)
         self.task_caller[t] = c
         self.settle()
+
+    def subscribe(self):
+        """subscribe() while there is no connection (it only records the subscription then)."""
+        if any(x.up for x in self.links) or self.pairing.subscriptions:
+            return False
+        self.log("subscribe")
+        self.loop.run_until_complete(self.pairing.subscribe([(1, IID_ON), (1, IID_BRIGHT)]))
+        self.settle()
+        return True
 
     def cancel(self, c):
         t, _ = self.callers[c]
@@ -652,4 +663,129 @@ class World:
 def _short(v):
     if isinstance(v, dict):
         return sorted(f"{k[1]}" for k in v)
-    return None if v is None else str(v)[:40]
+    return "" if v is None else str(v)[:40]
+
+
+# =======================================================================================
+# seeded random executions
+# =======================================================================================
+def answer_then_drop(w: World, p):
+    """The accessory's answer and the loss of the link reach the event loop in the same iteration (both
+    D-Bus messages are read in one batch): the result is delivered, bleak marks the client disconnected
+    and runs the disconnected callback, and only then the waiting coroutine resumes."""
+    link = p.link
+    if p.kind == "pv":
+        kind, first = link.pv_reply("honest")
+        w.log("pv_tx", n=link.n, kind=kind)
+        p.fut.set_result(bytearray(first))
+    elif p.kind == "wr":
+        ok = link.data_write(p.handle, p.data)
+        w.log("wr", n=link.n, open=bool(ok))
+        p.fut.set_result(None)
+    elif p.kind == "rd":
+        kind = "honest" if link.resp is not None else "none"
+        data, more = link.data_read(kind, False)
+        w.log("rd", n=link.n, kind=kind, more=bool(more))
+        p.fut.set_result(bytearray(data))
+    else:
+        return False
+    w.log("drop", n=link.n)
+    link.go_down()
+    w.settle()
+    return True
+
+
+def random_run(seed: int, rid: str, nsteps: int = 40, fault: float = 0.25, ncallers: int = 3, races: bool = True,
+               subscribe: bool = True) -> World:
+    """A seeded random schedule: calls, honest answers, faults, cancellations, link loss, close."""
+    w = World(seed, rid)
+    rng = w.rng
+    cancelled = set()
+    shutdown_called = False
+    for _ in range(nsteps):
+        acts = []
+        idle = [c for c in range(1, ncallers + 1) if not w.busy(c)]
+        live = w.live()
+        if idle:
+            acts += [("call", 4 if not live else 2)]
+        if live:
+            acts += [("answer", 10)]
+            if rng.random() < fault:
+                acts += [("fault", 10)]
+        busy = [c for c in range(1, ncallers + 1) if w.busy(c) and c not in cancelled
+                and not any(p.kind == "disc" and p.caller == c for p in live)
+                and w.callers[c][1] in ("get", "put", "close")]
+        if busy and rng.random() < fault:
+            acts += [("cancel", 3)]
+        if any(x.up for x in w.links) and rng.random() < fault:
+            acts += [("drop", 2)]
+        if w.loop.next_timer() is not None:
+            acts += [("advance", 3)]
+        acts += [("obs", 1)]
+        if subscribe and not w.pairing.subscriptions and not any(x.up for x in w.links):
+            acts += [("subscribe", 1)]
+        tot = sum(wt for _, wt in acts)
+        x = rng.random() * tot
+        for name, wt in acts:
+            x -= wt
+            if x < 0:
+                break
+        if name == "call":
+            c = rng.choice(idle)
+            cancelled.discard(c)
+            kind = rng.choices(["get", "put", "close", "shutdown"], [45, 35, 17, 0 if shutdown_called else 3])[0]
+            shutdown_called |= kind == "shutdown"
+            if kind == "get":
+                w.call(c, "get", rng.choice([1, 1, 2, 3]))
+            elif kind == "put":
+                w.call(c, "put", rng.choice([1, 1, 2]), long=rng.random() < 0.5)
+            else:
+                w.call(c, kind)
+        elif name == "answer":
+            p = rng.choice(live)
+            if p.kind == "conn":
+                w.conn_result(True)
+            elif p.kind == "disc":
+                w.disc_result(p, error=rng.random() < 0.15)
+            elif p.kind == "wr":
+                w.write_ok(p)
+            elif p.kind == "rd":
+                w.read_ok(p, "honest", split=rng.random() < 0.4)
+            elif p.kind == "pv":
+                w.pv_answer(p, "fallback" if rng.random() < 0.2 else "honest")
+        elif name == "fault":
+            p = rng.choice(live)
+            if p.kind == "conn":
+                w.conn_result(False)
+            elif p.kind == "disc":
+                w.disc_result(p, error=True)
+            elif p.kind == "pv":
+                r = rng.random()
+                if r < 0.3:
+                    w.pv_answer(p, "err")
+                elif r < 0.5 and races:
+                    answer_then_drop(w, p)
+                else:
+                    w.gatt_error(p, drop=rng.random() < 0.5, cls=rng.choice(["bleak", "bleak", "timeout", "eof"]))
+            else:
+                r = rng.random()
+                if p.kind == "rd" and r < 0.5:
+                    w.read_ok(p, rng.choice(["corrupt", "replay", "wrongtid"]), split=rng.random() < 0.3)
+                elif r < 0.65 and races:
+                    answer_then_drop(w, p)
+                else:
+                    w.gatt_error(p, drop=rng.random() < 0.5, cls=rng.choice(["bleak", "bleak", "timeout", "eof"]))
+        elif name == "cancel":
+            c = rng.choice(busy)
+            cancelled.add(c)
+            w.cancel(c)
+        elif name == "drop":
+            w.drop()
+        elif name == "advance":
+            w.advance()
+        elif name == "subscribe":
+            w.subscribe()
+        else:
+            w.obs()
+    w.honest_tail()
+    return w
